@@ -34,7 +34,10 @@ theorem sign_ok_iff (S : SigScheme) (entity : Str) (kp : KeyPair) (obj : Obj) :
     (signJson S entity kp obj).1 = .ok () ↔ Signable obj entity :=
   signJson_ok_iff S entity kp obj
 
-/-- A signing call that reports an error leaves the object as it was (F11, repaired code). -/
+/-- A signing call that reports an error leaves the object as it was (F11, repaired code). In the
+model this holds by the shape of `signJson` (validation up front, `signCore` only afterwards); that
+the Rust function has this shape is what the differential correspondence (T2) and the direct oracle
+(T3: object after a failing `sign_json` equals the object before) check on every run. -/
 theorem sign_error_atomic (S : SigScheme) (entity : Str) (kp : KeyPair) (obj : Obj) (e : Err)
     (h : (signJson S entity kp obj).1 = .error e) : (signJson S entity kp obj).2 = obj := by
   by_cases hs : Signable obj entity
@@ -206,6 +209,9 @@ def toy : SigScheme where
   pub k := (k.sum % 256) :: List.replicate 31 0
   verify pk m s := s == List.replicate 64 ((pk.sum + m.sum) % 256)
 
+/-- The toy scheme satisfies every law of `SigScheme.Lawful`. Not a property theorem of C02 but a
+consistency witness; it is used by the refutations in `Props/C03.lean`, so its axioms are printed
+below like those of the property theorems. -/
 theorem toy_lawful : toy.Lawful where
   verify_sign k m := by simp [toy]
   pub_len k := by simp [toy]
@@ -282,4 +288,5 @@ example :
 #print axioms verify_tamper
 #print axioms verify_tamper_signed
 #print axioms verify_tamper_rejects
+#print axioms toy_lawful
 end Ruma.Props.C02
